@@ -141,6 +141,7 @@ def run(chk):
     chk.configs.append("K1")
     chk.rule("C13.relay", "after update every terminal reads the newest pre-update command, issuer's time and kind, value mapped issuer->reader")
     chk.rule("C13.differential", "Differential::update leaves command slots untouched and never calls set on a command")
+    chk.rule("C13.chain", "terminal links stay a symmetric matching under connect/disconnect (table shared with C09)")
     sim = S.Sim(prog)
     maxn = 3 if chk.tier == "quick" else 4
     check_device(chk, prog, sim, "Invert", None)
@@ -148,6 +149,19 @@ def run(chk):
     for n in range(1, maxn + 1):
         check_device(chk, prog, sim, "Axle", n)
     check_differential(chk, prog, sim)
+    # link structure relied upon (connect keeps the terminals a symmetric matching): the inductive step is C09's table, evaluated here too
+    import rules.C09 as C09
+    import report
+    key = "links:matching-preserved-by-connect"
+    chk.obligation(key, "connect/disconnect keep terminal links a symmetric matching (shared with C09)")
+    sub = report.Check("C13", chk.tier)
+    C09.check_links(sub, prog, sim)
+    chk.evaluations += sub.evaluations
+    bad = [v for v in sub.violations]
+    for v in bad:
+        chk.violation("C13.chain" if v["rule"].startswith("C09") else v["rule"], "links:" + v["key"], "the chain clause composes the per-device relay with the terminal link structure: after re-wiring, a terminal that was connected elsewhere must have been unlinked from its old partner, or commands keep reaching (and being relayed by) the device it was moved away from: " + v["what"], **v["detail"])
+    if not bad:
+        chk.discharge(key)
     chk.assume("terminals do not follow getters; set on a terminal cannot fail (impl_set is infallible: inlined)",
                "the chain clause (command reaches the far end scaled by the product of ratios) is the composition of this per-device table with the terminal read table (C09); it is not simulated as a whole",
                "timestamp ties: either tied command is accepted")
